@@ -926,7 +926,11 @@ def check_history(hist, pass_index=None):
                     continue
                 x = {"write": w, "in_history_of": have, "missing_on": sorted(set(judged) - set(have)), "acker": acker_of(hist, w), "near_fault": near_fault(hist, w), "when": tag}
                 if w["res"] == "ok":
-                    sig, y = lost_sig(hist, w, "acked-write-on-some-nodes-only", on_majority=len(have) * 2 > 3)
+                    # the write is in the change history of the very leader that decided it: that leader DID commit and apply it (in its
+                    # own view), however soon after its answer it was killed or deposed - the class "not-leader-at-answer" (success
+                    # answered without a commit) does not apply; the write belongs to the regime of that leader, like a write a majority serves
+                    decided = x["acker"][2]
+                    sig, y = lost_sig(hist, w, "acked-write-on-some-nodes-only", on_majority=len(have) * 2 > 3 or (decided is not None and str(decided) in [str(h) for h in have]))
                     V.append((sig, wit(k, dict(x, **y))))
                 else:
                     V.append(("unacked-write-on-some-nodes-only", wit(k, x)))
@@ -1330,7 +1334,7 @@ def replay(path):
     sym = sig.split("/")[0]
     if op and sym in ("acked-write-lost", "acked-write-on-some-nodes-only") and "faults" in wit:
         hist = {"faults": wit["faults"], "timeline": wit["timeline"], "boot": wit.get("boot"), "events": wit.get("events") or []}
-        again, _ = lost_sig(hist, op, sym, on_majority=sym == "acked-write-on-some-nodes-only" and len(wit.get("in_history_of") or []) * 2 > 3)
+        again, _ = lost_sig(hist, op, sym, on_majority=sym == "acked-write-on-some-nodes-only" and (len(wit.get("in_history_of") or []) * 2 > 3 or str(wit.get("acking_leader")) in [str(h) for h in (wit.get("in_history_of") or [])]))
         print("re-derived signature:", again)
         known = {(k.get("property"), k.get("signature")) for k in common.load_findings().get("known", [])}
         if again != sig and ("C06", again) in known:
